@@ -1293,6 +1293,9 @@ func (tc *typechecker) checkBuiltinCall(expr *ast.Call) []*typeInfo {
 		}
 		re := tc.checkExpr(expr.Args[0])
 		im := tc.checkExpr(expr.Args[1])
+		if re.Nil() || im.Nil() {
+			panic(tc.errorf(expr, "use of untyped nil"))
+		}
 		if re.IsUntypedConstant() && im.IsUntypedConstant() {
 			reKind := re.Type.Kind()
 			imKind := im.Type.Kind()
@@ -1553,6 +1556,9 @@ func (tc *typechecker) checkBuiltinCall(expr *ast.Call) []*typeInfo {
 			panic(tc.errorf(expr, "too many arguments to %s: %s", ident.Name, expr))
 		}
 		t := tc.checkExpr(expr.Args[0])
+		if t.Nil() {
+			panic(tc.errorf(expr, "use of untyped nil"))
+		}
 		ti := &typeInfo{Type: float64Type}
 		if t.IsUntypedConstant() {
 			if !isNumeric(t.Type.Kind()) {
